@@ -153,6 +153,35 @@ def reconstrain_cases():
     return uniq, n
 
 
+def uninitialised_reconstrain_cases():
+    """RecordTensor.reconstrain while the storage is not initialised yet (None, empty tensor, empty parameter, lazy
+    buffer): constraints can be added / edited / removed without an error and are honoured once data arrives"""
+    import torch.nn as nn
+
+    fails, n = [], 0
+    for kind, mk in (("none", lambda: None), ("empty", lambda: torch.empty(0)), ("param_empty", lambda: nn.Parameter(torch.empty(0), False)), ("uninit_buffer", lambda: nn.UninitializedBuffer())):
+        n += 1
+        m = Module()
+        inp = dict(storage=kind)
+        try:
+            rec = RecordTensor(m, "x", 1.0, 2.0, mk())
+            rec.reconstrain(0, 4)
+            rec.reconstrain(0, 3)
+            rec.reconstrain(-1, 3)
+            rec.reconstrain(-1, None)
+            ok = dict(rec.constraints).get(0) == 3 and -1 not in dict(rec.constraints) and rec.recordsz == 2  # the public view of the constraints leaves the time axis out
+        except Exception as e:  # noqa: BLE001
+            fails.append({"what": "C13/reconstrain/uninitialised_storage_raises", "input": inp, "expected": "bookkeeping only", "actual": f"{type(e).__name__}: {e}"})
+            continue
+        if not ok:
+            fails.append({"what": "C13/reconstrain/uninitialised_storage_bookkeeping", "input": inp, "expected": {"0": 3}, "actual": {str(k): v for k, v in dict(rec.constraints).items()}})
+    uniq = []
+    for f in fails:
+        if not any(u["what"] == f["what"] for u in uniq):
+            uniq.append(f)
+    return uniq, n
+
+
 def nonstrict_cases():
     """a NON-strict record whose constraints name one observation dimension twice (positive and negative index) is valid,
     reports strict == False, and resizes like any other record"""
@@ -205,6 +234,11 @@ def sweep(tier="quick", seed=0, unsupported=()):
     for f in f2:
         if not any(x["what"] == f["what"] for x in failures):
             failures.append(f)
+    f5, n5 = uninitialised_reconstrain_cases()
+    for f in f5:
+        if not any(x["what"] == f["what"] for x in failures):
+            failures.append(f)
+    cases += n5
     f4, n4 = nonstrict_cases()
     for f in f4:
         if not any(x["what"] == f["what"] for x in failures):
@@ -245,6 +279,10 @@ def replay_native(rp):
     if "cfg0" in i:
         f = resize_case(tuple(i["cfg0"]), tuple(i["cfg1"]), i["fill"], i["storage"], tuple(i["order"]))
         return {"reproduced": f is not None, "failure": f}
+    if str(rp.get("what", "")).startswith("C13/reconstrain/uninitialised"):
+        f, _ = uninitialised_reconstrain_cases()
+        f = [x for x in f if x["what"] == rp.get("what")]
+        return {"reproduced": bool(f), "failure": f[0] if f else None}
     if str(rp.get("what", "")).startswith("C13/nonstrict"):
         f, _ = nonstrict_cases()
         f = [x for x in f if x["what"] == rp.get("what")]
